@@ -971,7 +971,7 @@ def check_placecb(lines, impl, stats):
 # a pin of a movable cell gives (cell, offset - placed size / 2), the pins of fixed cells give the extent [min, max] of their positions
 # clamped to the placement area (bounding box of the rows) -- and the resulting addNet calls are the ASM / SOLVE line handed to the
 # extracted Coq model (Quad.v) and to the oracles (normal equations, least-squares residual).  N orientation (the default) only.
-N_CASM_Q, N_CSOLVE_Q = 2500, 700
+N_CASM_Q, N_CSOLVE_Q = 2000, 600
 
 
 def qtok(v):
